@@ -325,9 +325,42 @@ impl<'a> Walker<'a> {
         let mut pos = item.root.clone();
         // replay the prefix on the real board with the generator's own move objects
         let mut applied: Vec<ChessMove> = Vec::new();
-        for m in &item.prefix {
+        // "long-replay" items: the game is replayed move by move with moves built through the
+        // public constructors and NOTHING else touches the board (no generation, hence no
+        // apply / undo of other moves on it); after every ply the board is compared with the model
+        // (C03) and its key with the key of the same position set up directly (C05)
+        let pure = item.seed_name.starts_with("long-replay");
+        for (k, m) in item.prefix.iter().enumerate() {
             let turn = color_of(pos.stm);
             let want = describe_model(m);
+            if pure {
+                let im = impl_move_from_model(m, pos.stm);
+                match guarded(|| im.apply(&mut board)) {
+                    Ok(Ok(())) => {}
+                    other => {
+                        self.viol("C03", "apply-failed(long-replay)", item, &[], format!("ply {} ({}): {:?}", k + 1, uci(m), other.map(|r| r.map_err(|e| e.to_string()))));
+                        return;
+                    }
+                }
+                board.toggle_turn();
+                applied.push(im);
+                pos = pos.make(m);
+                l.n.add("long_replay_plies_compared", 1);
+                let s = snapshot(&board);
+                let d = s.diff_pos(&pos);
+                if !d.is_empty() {
+                    self.viol("C03", "position-differs-from-the-rules-successor(long-replay)", item, &[], format!("after ply {} ({}) of a replayed game: {}", k + 1, uci(m), d));
+                    return;
+                }
+                if self.cfg.flags & F05 != 0 {
+                    let direct = build_board(&pos).current_position_hash();
+                    if s.key != direct {
+                        self.viol("C05", "key-differs-from-direct-set-up(long-replay)", item, &[], format!("after ply {} ({}) of a replayed game: key {:#018x}, the same position set up directly {:#018x}", k + 1, uci(m), s.key, direct));
+                        return;
+                    }
+                }
+                continue;
+            }
             let found = guarded(|| l.g.generate_moves(&mut board, turn)).ok().and_then(|ms| ms.iter().find(|x| describe_impl(x) == want).cloned());
             // fall back to a move built through the public constructors (the mismatch itself is
             // reported by the item that visits the parent node)
@@ -1283,6 +1316,20 @@ pub fn preroll_game(n: usize) -> Vec<Move> {
 pub const LONG_GAME_EP_ROOT: &str = "rnbqkbnr/pppp1ppp/8/4P3/3p4/8/PPPP1PPP/RNBQKBNR w KQkq - 0 1";
 
 /// same shuffle from any root that has the king's knights at home and the rook/knight pawns unmoved
+/// a long game that opens with the given moves (e.g. double pawn steps) and then shuffles
+pub fn preroll_game_opening(opening: &[&str], n: usize) -> Vec<Move> {
+    let mut p = Pos::startpos();
+    let mut out = Vec::new();
+    for u in opening {
+        let m = *p.legal_moves().iter().find(|m| uci(m) == *u).expect("preroll opening move");
+        p = p.make(&m);
+        out.push(m);
+    }
+    let rest = preroll_game_from(&p, n.saturating_sub(out.len()));
+    out.extend(rest);
+    out
+}
+
 pub fn preroll_game_from(root: &Pos, n: usize) -> Vec<Move> {
     let mut p = root.clone();
     let mut out = Vec::new();
